@@ -88,7 +88,12 @@ impl Property for C10 {
             }
             // a regrouping: cut points and empty groups
             let mut regroup: Vec<Vec<String>> = vec![vec![]];
-            for r in &rules { if t.chance(1, 3) { regroup.push(vec![]); if t.chance(1, 4) { regroup.push(vec![]); } } regroup.last_mut().unwrap().push(r.clone()); }
+            for r in &rules {
+                if t.chance(1, 3) { regroup.push(vec![]); if t.chance(1, 4) { regroup.push(vec![]); } }
+                // blank and comment-only lines inside a group apply nothing and end nothing
+                if t.chance(1, 6) { regroup.last_mut().unwrap().push(["", "   ", ";; a note", "\t;; x > y"][t.pick(4)].to_string()); }
+                regroup.last_mut().unwrap().push(r.clone());
+            }
             Some(json!({"kind": "generated", "rules": [rules], "regroup": regroup, "words": [word]}))
         });
     }
